@@ -48,8 +48,10 @@ def install_reach(ctx):
 def params_for(k, quick):
     """deterministic sweep of the generator parameters by document index"""
     fills = [0.15, 0.5, 0.85, 1.0, 0.3, 0.7]
+    # every map gets multi-group (k=0, 6, 13, ...) and multi-interchange (k=1, 10, 21, ...) documents even in the quick tier:
+    # map selection and counters must survive a second GS / ISA
     return dict(fill=fills[k % len(fills)], opt_prob=[0.3, 0.6, 0.9, 1.0][(k // 2) % 4], maxrep=[1, 2, 3][(k // 3) % 3],
-                charset='E' if k % 2 else 'B', rich=(k % 3 != 0), n_isa=2 if k % 11 == 10 else 1, n_gs=2 if k % 7 == 6 else 1,
+                charset='E' if k % 2 else 'B', rich=(k % 3 != 0), n_isa=2 if (k % 11 == 10 or k == 1) else 1, n_gs=2 if (k % 7 == 6 or k == 0) else (3 if k == 2 else 1),
                 n_st=[1, 2, None][k % 3])
 
 
